@@ -79,6 +79,7 @@ func (r *RigR) oracles() {
 	}
 	perVch := map[string][]emRef{}
 	lastEndSeq := map[string]int{}  // queue|vch -> last end seq
+	lastFwd := map[string]bool{}    // queue|vch -> whether that pack had taken the forward path
 	shardMap := map[string]string{} // source vch -> downstream ShardName
 	shardInv := map[string]string{}
 	dataPacksOnQueue := map[string]map[int64]bool{}
@@ -114,10 +115,20 @@ func (r *RigR) oracles() {
 				s.Violate("C02", "pack_msgid", "pack of stream %s on %s: end position message id %d is not a source tick of %s", vch, p.Queue, endSeq, p.SrcPCh)
 			}
 			k := p.Queue + "|" + vch
+			fwd := r.fwdPacks[fmt.Sprintf("%d|%s|%d", p.CollID, p.SrcPCh, endSeq)]
 			if last, ok := lastEndSeq[k]; ok && endSeq <= last {
-				s.Violate("C01", "pack_order", "stream %s on %s: pack with source end id %d handed over after %d", vch, p.Queue, endSeq, last)
+				cls := ""
+				if fwd != lastFwd[k] {
+					// one of the two packs took the forward path (another goroutine hands it over) and the other did not:
+					// the known forward-path finding (KF-C05-forwarded-pack-overtaken), here with both on one queue
+					cls = "_forwarded_pack_overtaken"
+				}
+				s.Violate("C01", "pack_order"+cls, "stream %s on %s: pack with source end id %d handed over after %d", vch, p.Queue, endSeq, last)
 			}
-			lastEndSeq[k] = endSeq
+			if last, ok := lastEndSeq[k]; !ok || endSeq > last {
+				lastEndSeq[k] = endSeq
+				lastFwd[k] = fwd
+			}
 		}
 		for _, pos := range append(append([]*posT{}, toPosT(p.StartPos)...), toPosT(p.EndPos)...) {
 			if pos.ch != p.Queue {
@@ -251,6 +262,28 @@ func (r *RigR) oracles() {
 			}
 			if len(dp.Entries) == 0 {
 				s.Probe("tick_only_source_pack")
+			}
+		}
+	}
+	if sc.Knobs.SrcNum > 0 && sc.Knobs.SrcNum < sc.Knobs.TgtNum && s.Plan.Prop == "C01" {
+		// fewer source than downstream channels: a stream hosted by a handler that was built for another source channel
+		for _, p := range r.Packs {
+			if _, c := r.vchanFor(p.CollID, p.SrcPCh); c != nil && len(c.SrcV) == 1 && physOf(c.SrcV[0]) != "" {
+				si, ti := -1, -1
+				for i, sp := range sc.SrcP {
+					if sp == physOf(c.SrcV[0]) {
+						si = i
+					}
+				}
+				for i, tp := range sc.TgtP {
+					if tp == physOf(c.TgtV[0]) {
+						ti = i
+					}
+				}
+				if si >= 0 && ti >= 0 && si != ti {
+					s.Probe("foreign_stream_pack_fewer_source_channels")
+					break
+				}
 			}
 		}
 	}
